@@ -1,9 +1,15 @@
 ------------------------------ MODULE MC_Regex ------------------------------
 (* All expressions up to a size bound over the alphabet {a, b, z, P, E} (z is never named in an expression; P and E    *)
-(* stand for a two- and a three-octet UTF-8 symbol, substituted by the harness) x all strings up to a length bound.   *)
-EXTENDS Regex, Json
+(* stand for a two- and a three-octet UTF-8 symbol, substituted by the harness) x all strings up to a length bound     *)
+(* over that alphabet plus two symbols sharing lead octets with P and E.                                                *)
+EXTENDS RegexBytes, Json
 CONSTANTS MaxLen, Size3      \* Size3: include expressions of size 3
 
+\* UTF-8 of a, b, z, pi (the harness also substitutes e acute: no octet in common either way), euro
+\* and two symbols no expression names that share lead octets with them: rho (one octet with pi; e grave with e acute),
+\* kip sign U+20AD (two octets with euro)
+EncDef == << <<97>>, <<98>>, <<122>>, <<207, 128>>, <<226, 130, 172>>, <<207, 129>>, <<226, 130, 173>> >>
+NSym == Cardinality(Sigma)
 A == 1  B == 2  Z == 3  P == 4  E == 5
 Name(c) == CASE c = 1 -> "a" [] c = 2 -> "b" [] c = 3 -> "z" [] c = 4 -> "P" [] c = 5 -> "E"
 
@@ -34,13 +40,20 @@ Text(e) ==
 
 \* all strings of length n in lexicographic order, and all up to MaxLen (shortest first): the canonical string list
 RECURSIVE Level(_), UpTo(_)
-Level(n) == IF n = 0 THEN << <<>> >> ELSE LET L == Level(n - 1) IN [ i \in 1 .. (Len(L) * 5) |-> Append(L[((i - 1) \div 5) + 1], ((i - 1) % 5) + 1) ]
+Level(n) == IF n = 0 THEN << <<>> >> ELSE LET L == Level(n - 1) IN [ i \in 1 .. (Len(L) * NSym) |-> Append(L[((i - 1) \div NSym) + 1], ((i - 1) % NSym) + 1) ]
 UpTo(n) == IF n = 0 THEN Level(0) ELSE UpTo(n - 1) \o Level(n)
 StrList == UpTo(MaxLen)
 SemanticsAgree(e) == \A s \in Strs(IF MaxLen > 3 THEN 3 ELSE MaxLen) : Nullable(DerivStr(e, s)) = Matches(e, s)
+\* on input without multi-octet symbols the coded translation of an expression naming none IS the property's reading
+CodedKeepsPlain(e) == Multi(e) = {} => \A s \in Strs(IF MaxLen > 3 THEN 3 ELSE MaxLen) : Plain(e, s) =>
+                         LET x == Expected(e, s) y == Coded(e, s) IN y.n = x.n /\ y.accept = x.accept
 EmitExpr(e) == /\ SemanticsAgree(e)
+               /\ CodedKeepsPlain(e)
                /\ PrintT(ToJson([k |-> "re", text |-> Text(e), res |-> [ i \in 1 .. Len(StrList) |->
-                                    LET x == Expected(e, StrList[i]) IN <<x.n, IF x.accept THEN 1 ELSE 0>> ]]))
+                                    LET x == Expected(e, StrList[i]) IN <<x.n, IF x.accept THEN 1 ELSE 0>> ],
+                                  sup |-> Supported(e),
+                                  cod |-> IF Supported(e) THEN [ i \in 1 .. Len(StrList) |->
+                                    LET x == Coded(e, StrList[i]) IN <<x.n, IF x.accept THEN 1 ELSE 0>> ] ELSE <<>>]))
 ASSUME PrintT(ToJson([k |-> "strs", strs |-> StrList]))
 VARIABLE ex
 RInit == ex \in Exprs
